@@ -235,8 +235,12 @@ Definition keyed (fr : frame) : frame :=
 (* the effect of a finished container on the builder that started it *)
 Definition putc (v : uval) (base : list frame) (tob : topobj) : option (list frame * topobj) :=
   match base with
-  | FMap id kvs (Some k) true (Some rc) :: r =>
-      if hashable k then Some (FMap id (assoc_set k v kvs) (Some k) false (Some rc) :: r, tob) else None
+  | FMap id kvs key w (Some rc) :: r =>
+      match w, key with
+      | true, Some k =>
+          if hashable k then Some (FMap id (assoc_set k v kvs) (Some k) false (Some rc) :: r, tob) else None
+      | _, _ => None
+      end
   | _ => put v true base tob
   end.
 
@@ -485,7 +489,18 @@ Section Containers.
          rewrite (keyval_hashable k); [reflexivity|];
          unfold rec_key in Hrk; destruct (nth_error keys i) as [s0|]; [|discriminate];
          apply (rkey_keyval s0 k Hrk)).
-    - destruct children_mode; reflexivity.
+  Qed.
+
+  Lemma done_to_marker f id v st below :
+    stack st = FMarker id true :: below -> pending st = [] ->
+    mem_id id (map fst (marked st)) = false ->
+    done_to (S f) v st = done_to f v (set_stack (set_refs st ((id, v) :: marked st) []) below).
+  Proof.
+    intros Hst Hp Hfresh. cbn [done_to]. rewrite Hst.
+    rewrite notify_marker_nopending by exact Hp. cbn [rbind].
+    cbn [marked set_refs lookup_marked]. rewrite bytes_eqb_refl.
+    cbn [stack set_refs tl]. rewrite Hst. cbn [tl].
+    rewrite filter_fresh by exact Hfresh. reflexivity.
   Qed.
 
   (* a finished container handed to the builder below (through its marker, if any) *)
@@ -514,22 +529,15 @@ Section Containers.
           eexists. split; [reflexivity|]. cbn. auto.
         + destruct (hashable k) eqn:Hk; [|discriminate]. inversion Hput; subst. cbn [map_store]. rewrite Hk.
           eexists. split; [reflexivity|]. cbn. auto.
-        + (* a record builder that has not sent its key gets no container *)
-          destruct (rec_key keys i); discriminate.
         + inversion Hput; subst. cbn [map_store]. eexists. split; [reflexivity|]. cbn. auto.
-        + destruct (rec_key keys i); discriminate.
         + inversion Hput; subst. cbn [map_store]. eexists. split; [reflexivity|]. cbn. auto.
       - destruct children_mode; [discriminate|]. inversion Hput; subst. rewrite Hsnap.
         eexists. split; [reflexivity|]. cbn. auto. }
     destruct mk as [id|]; cbn [mkframes app mkentry length].
     - specialize (Hfresh id eq_refl).
-      cbn [done_to]. rewrite Hst. cbn [mkframes app].
-      rewrite notify_marker_nopending by exact Hp. cbn [rbind].
-      cbn [marked set_refs lookup_marked]. rewrite bytes_eqb_refl.
-      cbn [stack set_refs tl]. rewrite Hst. cbn [mkframes app tl].
-      rewrite filter_fresh by exact Hfresh.
-      match goal with |- exists st', done_to _ _ ?S0 = _ /\ _ =>
-        destruct (Hcore S0 eq_refl eq_refl) as [st' [Hd [H1 [H2 [H3 [H4 H5]]]]]] end.
+      rewrite (done_to_marker (S (length r)) id v st (fr :: r) Hst Hp Hfresh).
+      destruct (Hcore (set_stack (set_refs st ((id, v) :: marked st) []) (fr :: r)) eq_refl eq_refl)
+        as [st' [Hd [H1 [H2 [H3 [H4 H5]]]]]].
       exists st'. split; [exact Hd|]. split; [exact H1|]. split; [exact H2|].
       split; [rewrite H3; reflexivity|]. split; [rewrite H4; reflexivity|]. rewrite H5. reflexivity.
     - destruct (Hcore st Hst eq_refl) as [st' [Hd [H1 [H2 [H3 [H4 H5]]]]]].
@@ -804,12 +812,10 @@ End Chunks.
 
 Definition pos_of (base : list frame) : pos :=
   match base with
-  | FMap _ _ _ false _ :: _ => PKey
+  | FMap _ _ _ false None :: _ => PKey
   | FNode false _ :: _ => PNodeVal
   | _ => PGen
   end.
-Definition ready (base : list frame) (tob : topobj) : bool :=
-  match put UNil false base tob with Some _ => true | None => false end.
 Definition top_is_ftop (base : list frame) : bool :=
   match base with FTop :: _ => true | _ => false end.
 
@@ -820,9 +826,10 @@ Proof.
   destruct fr; cbn [put]; try discriminate.
   - destruct tob; [|discriminate]. intros _. do 2 eexists; reflexivity.
   - intros _. do 2 eexists; reflexivity.
-  - destruct key as [k|], want_value, rec; try discriminate.
-    + destruct (hashable k); [|discriminate]. intros _. do 2 eexists; reflexivity.
-    + intros _. do 2 eexists; reflexivity.
+  - destruct want_value, rec as [[keys i]|]; try discriminate.
+    + destruct key as [k|]; [|discriminate]. destruct (hashable k); [|discriminate].
+      intros _. do 2 eexists; reflexivity.
+    + destruct (rec_key keys i); [|discriminate]. intros _. do 2 eexists; reflexivity.
     + intros _. do 2 eexists; reflexivity.
   - destruct children_mode; [discriminate|]. intros _. do 2 eexists; reflexivity.
 Qed.
@@ -835,7 +842,7 @@ Proof. destruct base as [|fr r]; [reflexivity|]. destruct fr; try reflexivity. d
 (* is the value a container (seen through its marker)? *)
 Fixpoint contb (t : dt) : bool :=
   match t with
-  | TList _ | TMap _ | TNode _ _ => true
+  | TList _ | TMap _ | TNode _ _ | TRecord _ _ => true
   | TMark _ t' => contb t'
   | _ => false
   end.
@@ -843,18 +850,21 @@ Fixpoint contb (t : dt) : bool :=
 Section Main.
   Variable uc : bytes -> option bytes.
   Variable tc : bytes -> option (bytes * bytes).
+  (* the record types of the document: their key data, and the table the builder holds *)
+  Variable rd : list (bytes * list dv).
+  Variable T : list (bytes * list scalar).
 
   Definition supp_list := fix go (ids : list bytes) (l : list dt) : option (list bytes) :=
     match l with
     | [] => Some ids
-    | x :: r => match supp uc tc ids PGen x with Some ids1 => go ids1 r | None => None end
+    | x :: r => match supp uc tc rd ids PGen x with Some ids1 => go ids1 r | None => None end
     end.
   Definition supp_kvs := fix go (ids : list bytes) (l : list (dt * dt)) : option (list bytes) :=
     match l with
     | [] => Some ids
     | (k, v) :: r =>
-      match supp uc tc ids PKey k with
-      | Some ids1 => match supp uc tc ids1 PGen v with Some ids2 => go ids2 r | None => None end
+      match supp uc tc rd ids PKey k with
+      | Some ids1 => match supp uc tc rd ids1 PGen v with Some ids2 => go ids2 r | None => None end
       | None => None
       end
     end.
@@ -862,9 +872,9 @@ Section Main.
     match l with
     | [] => Some ([], env)
     | (k, v) :: r =>
-      match erase [] env k with
+      match erase rd env k with
       | Some (k', e1) =>
-        match erase [] e1 v with
+        match erase rd e1 v with
         | Some (v', e2) => match go e2 r with Some (r', e3) => Some ((k', v') :: r', e3) | None => None end
         | None => None
         end
@@ -872,26 +882,26 @@ Section Main.
       end
     end.
 
-  Lemma supp_TList ids p l : supp uc tc ids p (TList l) = if is_key p then None else supp_list ids l.
+  Lemma supp_TList ids p l : supp uc tc rd ids p (TList l) = if is_key p then None else supp_list ids l.
   Proof. reflexivity. Qed.
   Lemma supp_TNode ids p v ch :
-    supp uc tc ids p (TNode v ch) =
+    supp uc tc rd ids p (TNode v ch) =
     if is_key p then None
-    else match supp uc tc ids PNodeVal v with Some ids1 => supp_list ids1 ch | None => None end.
+    else match supp uc tc rd ids PNodeVal v with Some ids1 => supp_list ids1 ch | None => None end.
   Proof. reflexivity. Qed.
   Lemma supp_TMap ids p kvs :
-    supp uc tc ids p (TMap kvs) =
+    supp uc tc rd ids p (TMap kvs) =
     if is_key p then None
     else if negb (match omap2 (key_data) (map fst kvs) with Some ds => dkeys_distinct ds | None => false end) then None
     else supp_kvs ids kvs.
   Proof. reflexivity. Qed.
   Lemma erase_DMap env kvs :
-    erase [] env (DMap kvs) = match erase_kvs env kvs with Some (l', e) => Some (DMap l', e) | None => None end.
+    erase rd env (DMap kvs) = match erase_kvs env kvs with Some (l', e) => Some (DMap l', e) | None => None end.
   Proof. reflexivity. Qed.
 
   (* what running the events of one value does *)
   Definition value_ok (t : dt) : Prop :=
-    forall ids p ids', supp uc tc ids p t = Some ids' ->
+    forall ids p ids', supp uc tc rd ids p t = Some ids' ->
     forall mk st base d,
       stack st = mkframes mk false ++ base ->
       (pos_of base = PKey -> p = PKey) ->
@@ -901,6 +911,7 @@ Section Main.
       (top_is_ftop base = true -> ids = []) ->
       ready base (tobj st) = true ->
       pending st = [] ->
+      rt_tab st = T ->
       ids = map fst (marked st) ->
       env_clean (marked st) ->
       sem t = Some d ->
@@ -909,11 +920,11 @@ Section Main.
         exec uc tc st (flat t) = ROk st' /\
         put v (contb t) base (tobj st) = Some (stack st', tobj st') /\
         marked st' = mkentry mk v ++ m1 /\ map fst m1 = ids' /\ env_clean m1 /\
-        erase [] (env_data (marked st)) d = Some (to_dv v, env_data m1) /\
-        has_hole v = false /\ pending st' = [] /\
+        erase rd (env_data (marked st)) d = Some (to_dv v, env_data m1) /\
+        has_hole v = false /\ (pending st' = [] /\ rt_tab st' = T) /\
         (p = PKey -> keyval v = true).
 
-  Lemma event_dv_erase e d env : event_dv e = Some d -> erase [] env d = Some (d, env).
+  Lemma event_dv_erase e d env : event_dv e = Some d -> erase rd env d = Some (d, env).
   Proof.
     destruct e; cbn [event_dv]; intro H; try discriminate;
       try (inversion H; subst; reflexivity).
@@ -942,13 +953,13 @@ Section Main.
 
   Lemma value_leaf e : value_ok (TLeaf e).
   Proof.
-    intros ids p ids' Hs mk st base d Hst Hk Hn Hnode Hnm Hft Hrdy Hp Hids Hcl Hsem Hfresh.
+    intros ids p ids' Hs mk st base d Hst Hk Hn Hnode Hnm Hft Hrdy Hp Hrt Hids Hcl Hsem Hfresh.
     cbn [supp] in Hs. destruct (leaf_ok uc tc p e) eqn:Hl; [|discriminate]. inversion Hs; subst ids'.
     destruct (leaf_conv uc tc p e Hl) as [sc [dd [Hsc [Hdv Hconv]]]].
     cbn [sem] in Hsem. rewrite Hdv in Hsem. inversion Hsem; subst dd.
     destruct (Hconv (next st)) as [x [Hc [Hd [Hh Hkv]]]].
     destruct (ready_put base (tobj st) x false Hrdy) as [s' [t' Hput]].
-    destruct (scalar_arrival uc tc sc x mk base st s' t' Hst Hp Hc Hput) as [st' [Hon [Hs' [Ht' [Hm' Hp']]]]].
+    destruct (scalar_arrival uc tc sc x mk base st s' t' Hst Hp Hc Hput) as [st' [Hon [Hs' [Ht' [Hm' [Hp' Hrt']]]]]].
     { apply (node_top_false mk base (TLeaf e) Hnode eq_refl). }
     { intros id Hid. destruct (Hfresh id Hid) as [_ Hf]. rewrite Hids in Hf. exact Hf. }
     exists st', x, (marked st). split.
@@ -959,7 +970,7 @@ Section Main.
     split. { exact Hcl. }
     split. { rewrite Hd. apply (event_dv_erase e d _ Hdv). }
     split. { exact Hh. }
-    split. { exact Hp'. }
+    split. { split; [exact Hp'|]. rewrite Hrt'. exact Hrt. }
     exact Hkv.
   Qed.
 
@@ -1002,7 +1013,7 @@ Section Main.
                   = ROk (set_chunk st [] (crem st) (cmore st) (abegin_cb b) (abegin_bits b))) /\
       (forall st, fire uc tc (set_chunk st data 0 false (abegin_cb b) (abegin_bits b))
                   = on_scalar uc tc sc (set_chunk st data 0 false (abegin_cb b) (abegin_bits b))) /\
-      (forall env, erase [] env d = Some (d, env)) /\
+      (forall env, erase rd env d = Some (d, env)) /\
       forall n, exists x, conv uc tc n sc = Some x /\ to_dv x = d /\ has_hole x = false /\
                           (p = PKey -> keyval x = true).
   Proof.
@@ -1040,14 +1051,14 @@ Section Main.
 
   Lemma value_chunked b body : value_ok (TChunked b body).
   Proof.
-    intros ids p ids' Hs mk st base d Hst Hk Hn Hnode Hnm Hft Hrdy Hp Hids Hcl Hsem Hfresh.
+    intros ids p ids' Hs mk st base d Hst Hk Hn Hnode Hnm Hft Hrdy Hp Hrt Hids Hcl Hsem Hfresh.
     cbn [supp] in Hs. destruct (chunked_ok uc p b body) eqn:Hl; [|discriminate]. inversion Hs; subst ids'.
     destruct (chunked_leaf p b body Hl) as [data [sc [dd [Hcd [Hsm [Hbeg [Hfire [Her Hconv]]]]]]]].
     rewrite Hsm in Hsem. inversion Hsem; subst dd.
     set (st1 := set_chunk st data 0 false (abegin_cb b) (abegin_bits b)).
     destruct (Hconv (next st1)) as [x [Hc [Hd [Hh Hkv]]]].
     destruct (ready_put base (tobj st) x false Hrdy) as [s' [t' Hput]].
-    destruct (scalar_arrival uc tc sc x mk base st1 s' t') as [st' [Hon [Hs' [Ht' [Hm' Hp']]]]];
+    destruct (scalar_arrival uc tc sc x mk base st1 s' t') as [st' [Hon [Hs' [Ht' [Hm' [Hp' Hrt']]]]]];
       try assumption.
     { apply (node_top_false mk base (TChunked b body) Hnode eq_refl). }
     { intros id Hid. destruct (Hfresh id Hid) as [_ Hf]. rewrite Hids in Hf. exact Hf. }
@@ -1059,13 +1070,13 @@ Section Main.
     split. { exact Hcl. }
     split. { rewrite Hd. apply Her. }
     split. { exact Hh. }
-    split. { exact Hp'. }
+    split. { split; [exact Hp'|]. rewrite Hrt'. exact Hrt. }
     exact Hkv.
   Qed.
 
   Lemma value_ref id : value_ok (TRef id).
   Proof.
-    intros ids p ids' Hs mk st base d Hst Hk Hn Hnode Hnm Hft Hrdy Hp Hids Hcl Hsem Hfresh.
+    intros ids p ids' Hs mk st base d Hst Hk Hn Hnode Hnm Hft Hrdy Hp Hrt Hids Hcl Hsem Hfresh.
     cbn [supp] in Hs. destruct (is_key p) eqn:Hkp; [discriminate|].
     destruct (mem_id id ids) eqn:Hmem; [|discriminate]. inversion Hs; subst ids'.
     destruct mk as [mid|]; [exfalso; apply Hnm; discriminate|]. cbn [mkframes app] in Hst.
@@ -1075,10 +1086,10 @@ Section Main.
     pose proof (lookup_clean id (marked st) v Hcl Hl) as Hh.
     destruct (ready_put base (tobj st) v false Hrdy) as [s' [t' Hput]].
     destruct base as [|fr r]; [discriminate|].
-    destruct (ref_arrival uc tc id v fr r st s' t' Hst Hl Hh) as [st' [Hstep [Hs' [Ht' [Hm' Hp']]]]].
+    destruct (ref_arrival uc tc id v fr r st s' t' Hst Hl Hh) as [st' [Hstep [Hs' [Ht' [Hm' [Hp' Hrt']]]]]].
     { destruct fr; try exact I. discriminate. }
     { exact Hput. }
-    { destruct fr; try exact I. destruct want_value; [exact I|].
+    { destruct fr; try exact I. destruct want_value; [exact I|]. destruct rec; [exact I|].
       assert (Hpk : p = PKey) by (apply Hk; reflexivity). subst p. discriminate. }
     cbn [sem] in Hsem. inversion Hsem; subst d.
     exists st', v, (marked st). split.
@@ -1089,17 +1100,13 @@ Section Main.
     split. { exact Hcl. }
     split. { cbn [erase]. rewrite lookup_env_data, Hl. reflexivity. }
     split. { exact Hh. }
-    split. { rewrite Hp'. exact Hp. }
+    split. { split; [rewrite Hp'; exact Hp|rewrite Hrt'; exact Hrt]. }
     intro Hpk. subst p. discriminate.
   Qed.
 
-  Lemma contb_is_container t :
-    match t with TMark _ _ | TRef _ => False | _ => True end -> contb t = is_container t.
-  Proof. destruct t; intro H; try reflexivity; contradiction. Qed.
-
   Lemma value_mark id t : value_ok t -> value_ok (TMark id t).
   Proof.
-    intros IH ids p ids' Hs mk st base d Hst Hk Hn Hnode Hnm Hft Hrdy Hp Hids Hcl Hsem Hfresh.
+    intros IH ids p ids' Hs mk st base d Hst Hk Hn Hnode Hnm Hft Hrdy Hp Hrt Hids Hcl Hsem Hfresh.
     destruct mk as [mid|]; [exfalso; apply Hnm; discriminate|]. cbn [mkframes app] in Hst.
     cbn [supp] in Hs. destruct (mem_id id ids) eqn:Hfr0; [discriminate|].
     assert (Hshape : match t with TMark _ _ | TRef _ => False | _ => True end).
@@ -1107,7 +1114,7 @@ Section Main.
     set (p' := if is_key p then PKey else PGen) in *.
     assert (Hs2 : match p, is_container t with
                   | PNodeVal, false => None
-                  | _, _ => match supp uc tc ids p' t with
+                  | _, _ => match supp uc tc rd ids p' t with
                             | Some ids1 => if mem_id id ids1 then None else Some (id :: ids1)
                             | None => None
                             end
@@ -1119,9 +1126,9 @@ Section Main.
       destruct children_mode; [unfold ready in Hrdy; discriminate|].
       assert (Hpn : p = PNodeVal) by (apply Hn; reflexivity). subst p.
       destruct (is_container t); [reflexivity|discriminate]. }
-    assert (Hs3 : exists ids1, supp uc tc ids p' t = Some ids1 /\ mem_id id ids1 = false /\ ids' = id :: ids1).
+    assert (Hs3 : exists ids1, supp uc tc rd ids p' t = Some ids1 /\ mem_id id ids1 = false /\ ids' = id :: ids1).
     { destruct p, (is_container t) eqn:Ec; try discriminate;
-        (destruct (supp uc tc ids p' t) as [ids1|]; [|discriminate];
+        (destruct (supp uc tc rd ids p' t) as [ids1|]; [|discriminate];
          destruct (mem_id id ids1) eqn:Em; [discriminate|]; inversion Hs2; subst;
          exists ids1; auto). }
     destruct Hs3 as [ids1 [Hsup [Hfr1 Hids']]]. subst ids'.
@@ -1136,15 +1143,12 @@ Section Main.
       by (intros _; exact Hshape).
     assert (A12 : forall id0, Some id = Some id0 -> mem_id id0 ids1 = false /\ mem_id id0 ids = false).
     { intros id0 Hid0. inversion Hid0; subst id0. split; assumption. }
-    destruct (IH ids p' ids1 Hsup (Some id) st0 base d' A1 A2 A3 A4 A5 Hft Hrdy Hp Hids Hcl Hsem' A12)
+    destruct (IH ids p' ids1 Hsup (Some id) st0 base d' A1 A2 A3 A4 A5 Hft Hrdy Hp Hrt Hids Hcl Hsem' A12)
       as [st' [v [m1 [Hex [Hput [Hm [Hf [Hc1 [Her [Hh [Hp' Hkv]]]]]]]]]]].
     exists st', v, ((id, v) :: m1). split.
     { cbn [flat exec step rbind]. exact Hex. }
     split.
-    { cbn [contb]. rewrite (contb_is_container t Hshape) in Hput |- *.
-      destruct (top_is_ftop base) eqn:Etop.
-      - exact Hput.
-      - exact Hput. }
+    { cbn [contb]. exact Hput. }
     split. { cbn [mkentry app] in *. exact Hm. }
     split. { cbn [map fst]. rewrite Hf. reflexivity. }
     split. { constructor; [exact Hh|exact Hc1]. }
@@ -1177,7 +1181,7 @@ Section Main.
   (* value_ok without a marker in front *)
   Lemma use_value t : value_ok t ->
     forall ids p ids' st base d,
-      supp uc tc ids p t = Some ids' -> stack st = base ->
+      supp uc tc rd ids p t = Some ids' -> stack st = base ->
       (pos_of base = PKey -> p = PKey) -> (pos_of base = PNodeVal -> p = PNodeVal) ->
       (top_is_ftop base = true -> ids = []) -> ready base (tobj st) = true ->
       pending st = [] -> ids = map fst (marked st) -> env_clean (marked st) -> sem t = Some d ->
@@ -1185,7 +1189,7 @@ Section Main.
         exec uc tc st (flat t) = ROk st' /\
         put v (contb t) base (tobj st) = Some (stack st', tobj st') /\
         map fst (marked st') = ids' /\ env_clean (marked st') /\
-        erase [] (env_data (marked st)) d = Some (to_dv v, env_data (marked st')) /\
+        erase rd (env_data (marked st)) d = Some (to_dv v, env_data (marked st')) /\
         has_hole v = false /\ pending st' = [] /\ (p = PKey -> keyval v = true).
   Proof.
     intros H ids p ids' st base d Hs Hst Hk Hn Hft Hrdy Hp Hids Hcl Hsem.
@@ -1212,14 +1216,14 @@ Section Main.
         exec uc tc st (flat_map flat l) = ROk st' /\
         stack st' = FSlice (acc ++ vs) :: rest /\ tobj st' = tobj st /\
         map fst (marked st') = ids' /\ env_clean (marked st') /\
-        erase_list (erase []) (env_data (marked st)) ds = Some (map to_dv vs, env_data (marked st')) /\
+        erase_list (erase rd) (env_data (marked st)) ds = Some (map to_dv vs, env_data (marked st')) /\
         Forall (fun v => has_hole v = false) vs /\ pending st' = [].
   Proof.
     induction 1 as [|x r Hx _ IH]; intros ids ids' acc rest st ds Hs Hst Hp Hids Hcl Hsem.
     - cbn [supp_list] in Hs. inversion Hs; subst ids'. cbn [omap2] in Hsem. inversion Hsem; subst ds.
       exists st, []. cbn [flat_map exec]. rewrite app_nil_r.
       repeat split; auto.
-    - cbn [supp_list] in Hs. destruct (supp uc tc ids PGen x) as [ids1|] eqn:Hsx; [|discriminate].
+    - cbn [supp_list] in Hs. destruct (supp uc tc rd ids PGen x) as [ids1|] eqn:Hsx; [|discriminate].
       cbn [omap2] in Hsem. destruct (sem x) as [dx|] eqn:Hdx; [|discriminate].
       destruct (omap2 sem r) as [dr|] eqn:Hdr; [|discriminate]. inversion Hsem; subst ds.
       destruct (use_value x Hx ids PGen ids1 st (FSlice acc :: rest) dx Hsx Hst) as
@@ -1245,7 +1249,7 @@ Section Main.
 
   Lemma value_list l : Forall value_ok l -> value_ok (TList l).
   Proof.
-    intros IHl ids p ids' Hs mk st base d Hst Hk Hn Hnode Hnm Hft Hrdy Hp Hids Hcl Hsem Hfresh.
+    intros IHl ids p ids' Hs mk st base d Hst Hk Hn Hnode Hnm Hft Hrdy Hp Hrt Hids Hcl Hsem Hfresh.
     rewrite supp_TList in Hs. destruct (is_key p) eqn:Hkp; [discriminate|].
     cbn [sem] in Hsem. destruct (omap2 sem l) as [ds|] eqn:Hds; [|discriminate]. inversion Hsem; subst d.
     destruct base as [|fr r]; [discriminate|].
@@ -1277,9 +1281,9 @@ Section Main.
 
   Lemma value_node v ch : value_ok v -> Forall value_ok ch -> value_ok (TNode v ch).
   Proof.
-    intros IHv IHch ids p ids' Hs mk st base d Hst Hk Hn Hnode Hnm Hft Hrdy Hp Hids Hcl Hsem Hfresh.
+    intros IHv IHch ids p ids' Hs mk st base d Hst Hk Hn Hnode Hnm Hft Hrdy Hp Hrt Hids Hcl Hsem Hfresh.
     rewrite supp_TNode in Hs. destruct (is_key p) eqn:Hkp; [discriminate|].
-    destruct (supp uc tc ids PNodeVal v) as [ids1|] eqn:Hsv; [|discriminate].
+    destruct (supp uc tc rd ids PNodeVal v) as [ids1|] eqn:Hsv; [|discriminate].
     cbn [sem] in Hsem. destruct (sem v) as [dvv|] eqn:Hdv; [|discriminate].
     destruct (omap2 sem ch) as [ds|] eqn:Hds; [|discriminate]. inversion Hsem; subst d.
     destruct base as [|fr r]; [discriminate|].
@@ -1343,8 +1347,8 @@ Section Main.
 
   Lemma key_leaf_erase k ids ids1 dk :
     match k with TLeaf _ | TChunked _ _ => True | _ => False end ->
-    supp uc tc ids PKey k = Some ids1 -> sem k = Some dk ->
-    forall env, erase [] env dk = Some (dk, env).
+    supp uc tc rd ids PKey k = Some ids1 -> sem k = Some dk ->
+    forall env, erase rd env dk = Some (dk, env).
   Proof.
     destruct k; try contradiction; intros _ Hs Hsem env.
     - cbn [sem] in Hsem. apply (event_dv_erase e dk env Hsem).
@@ -1354,7 +1358,7 @@ Section Main.
   Qed.
 
   Lemma supp_key_shape k ids ids1 :
-    supp uc tc ids PKey k = Some ids1 ->
+    supp uc tc rd ids PKey k = Some ids1 ->
     match k with
     | TLeaf _ | TChunked _ _ => True
     | TMark _ (TLeaf _) | TMark _ (TChunked _ _) => True
@@ -1368,8 +1372,8 @@ Section Main.
   Qed.
 
   Lemma key_erase k ids ids1 dk kd :
-    supp uc tc ids PKey k = Some ids1 -> sem k = Some dk -> key_data k = Some kd ->
-    forall env d' e, erase [] env dk = Some (d', e) -> d' = kd.
+    supp uc tc rd ids PKey k = Some ids1 -> sem k = Some dk -> key_data k = Some kd ->
+    forall env d' e, erase rd env dk = Some (d', e) -> d' = kd.
   Proof.
     intros Hs Hsem Hkd env d' e Her. pose proof (supp_key_shape k ids ids1 Hs) as Hshape.
     destruct k; try contradiction.
@@ -1380,9 +1384,9 @@ Section Main.
     - (* marked key *)
       cbn [key_data] in Hkd. cbn [sem] in Hsem. rewrite Hkd in Hsem. inversion Hsem; subst dk.
       cbn [supp is_key] in Hs. destruct (mem_id id ids); [discriminate|].
-      assert (Hin : exists ids2, supp uc tc ids PKey k = Some ids2).
+      assert (Hin : exists ids2, supp uc tc rd ids PKey k = Some ids2).
       { destruct k; try contradiction;
-          (destruct (supp uc tc ids PKey _) as [ids2|] eqn:E; [exists ids2; reflexivity|discriminate]). }
+          (destruct (supp uc tc rd ids PKey _) as [ids2|] eqn:E; [exists ids2; reflexivity|discriminate]). }
       destruct Hin as [ids2 Hin].
       assert (Hlf : match k with TLeaf _ | TChunked _ _ => True | _ => False end)
         by (destruct k; try contradiction; exact I).
@@ -1415,8 +1419,8 @@ Section Main.
     - cbn [supp_kvs] in Hs. inversion Hs; subst ids'. cbn [omap2] in Hsem. inversion Hsem; subst dkvs.
       exists st, [], key0. cbn [flat_map exec]. rewrite app_nil_r. repeat split; auto.
     - cbn [fst snd] in Hk, Hv.
-      cbn [supp_kvs] in Hs. destruct (supp uc tc ids PKey k) as [ids1|] eqn:Hsk; [|discriminate].
-      destruct (supp uc tc ids1 PGen v) as [ids2|] eqn:Hsv; [|discriminate].
+      cbn [supp_kvs] in Hs. destruct (supp uc tc rd ids PKey k) as [ids1|] eqn:Hsk; [|discriminate].
+      destruct (supp uc tc rd ids1 PGen v) as [ids2|] eqn:Hsv; [|discriminate].
       cbn [omap2] in Hsem. unfold sem_kv at 1 in Hsem. cbn [fst snd] in Hsem.
       destruct (sem k) as [dk|] eqn:Hdk; [|discriminate]. destruct (sem v) as [dvv|] eqn:Hdv; [|discriminate].
       destruct (omap2 sem_kv r) as [dr|] eqn:Hdr; [|discriminate]. inversion Hsem; subst dkvs.
@@ -1494,7 +1498,7 @@ Section Main.
 
   Lemma value_map kvs : Forall (fun kv => value_ok (fst kv) /\ value_ok (snd kv)) kvs -> value_ok (TMap kvs).
   Proof.
-    intros IHl ids p ids' Hs mk st base d Hst Hk Hn Hnode Hnm Hft Hrdy Hp Hids Hcl Hsem Hfresh.
+    intros IHl ids p ids' Hs mk st base d Hst Hk Hn Hnode Hnm Hft Hrdy Hp Hrt Hids Hcl Hsem Hfresh.
     rewrite supp_TMap in Hs. destruct (is_key p) eqn:Hkp; [discriminate|].
     destruct (omap2 key_data (map fst kvs)) as [kds|] eqn:Hkds; [|discriminate].
     destruct (dkeys_distinct kds) eqn:Hdis; [|discriminate]. cbn [negb] in Hs.
